@@ -267,7 +267,7 @@ func TestC09(t *testing.T) {
 		st.mu.Lock()
 		st.N[c.tree+"/"+c.backend] = c.N
 		st.mu.Unlock()
-		for _, fl := range []string{flCancel, flDeadline} {
+		for _, fl := range preFlavours {
 			spec := runSpec{Scenario: c.sc.Name, Tree: c.tree, Backend: c.backend, Flavour: fl, Pre: true}
 			r, e := execRun(c.sc, spec)
 			if e != nil {
@@ -338,7 +338,7 @@ func TestC09(t *testing.T) {
 			}
 			return false
 		}
-		for _, fl := range []string{flCancel, flDeadline} {
+		for _, fl := range preFlavours {
 			spec := runSpec{Scenario: c.sc.Name, Tree: "12", Backend: c.backend, Flavour: fl, Pre: true}
 			r, e := execRun(&c.sc, spec)
 			if errors.Is(e, errNoPathArgument) {
@@ -400,7 +400,7 @@ func TestC09(t *testing.T) {
 		if c.N == 0 {
 			continue
 		}
-		for _, fl := range []string{flCancel, flDeadline} {
+		for _, fl := range []string{flCancel, flDeadline, flCancelCause} { // the cause flavour at the strides of the deadline one
 			s := strideOf(c, fl)
 			strides[c.tree+"/"+c.backend+"/"+fl] = s
 			if s == 0 {
